@@ -1,21 +1,3 @@
 #!/bin/sh
-# run_keys.sh <repo> <workdir> -- regenerate KeysGen.v from <repo>/src/keys.rs and check KeysGenProofs.v against it.
-# Works in <workdir> (created; the hand-written files are COPIED there), never writes into the directory of this script.
-# Exit 0 iff the translator succeeds and every theorem is proved and closed.  One line per theorem.
-set -u
-HERE=$(cd "$(dirname "$0")" && pwd)
-REPO=${1:?usage: run_keys.sh <repo> <workdir>}
-WORK=${2:?usage: run_keys.sh <repo> <workdir>}
-COQ_LASSO=${LASSO_COQ_DIR:-/verif/coq}
-mkdir -p "$WORK" || exit 2
-cp "$HERE/GenPrelude.v" "$HERE/KeysGenProofs.v" "$WORK/" || exit 2
-rm -f "$WORK/KeysGen.v" "$WORK"/KeysGen.vo "$WORK"/KeysGenProofs.vo
-python3 "$HERE/rust2coq.py" --repo "$REPO" --out "$WORK" --only keys || { echo "run_keys: TRANSLATOR LOST"; exit 1; }
-cd "$WORK" || exit 2
-for f in GenPrelude KeysGen; do
-  timeout 300 coqc -Q "$COQ_LASSO" Lasso -Q . LassoGen $f.v || { echo "run_keys: $f.v does not compile"; exit 1; }
-done
-python3 "$HERE/check_thms.py" "$WORK" KeysGenProofs.v
-rc=$?
-[ $rc -eq 0 ] && echo "run_keys: OK" || echo "run_keys: FAIL"
-exit $rc
+# run_keys.sh <repo> <workdir> -- kept for compatibility: `prop.sh keys <repo> <workdir>` (exit 0 iff everything is proved)
+exec "$(dirname "$0")/prop.sh" keys "$@"
